@@ -2,6 +2,7 @@
 #[macro_use]
 pub mod engine;
 pub mod agraph;
+pub mod fuzzde;
 pub mod gmodel;
 pub mod props;
 pub mod util;
